@@ -111,6 +111,26 @@ Theorem C07_source_facts :
   hq_term_pure = true /\ hq_unknown_pure = true /\ hq_unknown_variant = VUndefined /\ finish_grease_first = true.
 Proof. repeat split; reflexivity. Qed.
 
+(* whole-body anchors: the number of call sites that can store to the shared cell / set closing in each
+   request-path file, and a digest of every function the model mirrors (comments, whitespace, code and
+   status names masked): an edit anywhere in them - also in regions no per-arm fact reads - breaks this theorem *)
+Theorem C07_source_anchors :
+  site_counts = [2; 3; 1; 6; 5; 2] /\
+  body_hashes = [205141527681455;
+                 144042052786395;
+                 40565591688418;
+                 134107591409352;
+                 228009720797230;
+                 86527091560433;
+                 59300326317649;
+                 6538117779337;
+                 239204694070767;
+                 110534404041604;
+                 53872201513830;
+                 245849883045463;
+                 265499565455351].
+Proof. split; reflexivity. Qed.
+
 (* non-vacuity: a faulted and a healthy request interleaved *)
 Example C07_confined_inhabited :
   let l := [({| c_role := Server; c_hsize := 42; c_body := [9]; c_trl := Some 36; c_grease := true; c_unk := false |},
@@ -152,3 +172,4 @@ Print Assumptions C07_solo_equal.
 Print Assumptions C07_healthy_unharmed.
 Print Assumptions C07_completes.
 Print Assumptions C07_source_facts.
+Print Assumptions C07_source_anchors.
